@@ -19,7 +19,8 @@ def fs : List FieldSpec := [("age", tStr, true), ("name", tStr, false), ("sound"
 def ent (i n a : String) : Entity :=
   ⟨i, "Animal", [("id", .scalar (.str i)), ("name", .scalar (.str n)), ("age", .scalar (.str a)), ("sound", .null)]⟩
 def e1 : Entity := ent "QW5pbWFsOjE=" "rex" "7"
-def e2 : Entity := ent "QW5pbWFsOjI=" "tom" "3"
+/-- this id contains `#` (the path separator) on purpose: ids are arbitrary non-empty strings -/
+def e2 : Entity := ent "QW5pbWFs#2" "tom" "3"
 def e3 : Entity := ent "QW5pbWFsOjM=" "kit" "1"
 /-- the shared entity graph; `animals` refers to the entities `es`, in order -/
 def dataOf (es : List Entity) : Data := ⟨[e1, e2, e3], [("Query", [("animals", .list (es.map (fun e => .ref e.id)))])]⟩
